@@ -14,7 +14,7 @@ use write_fonts::tables::layout::builders::{Builder, ClassDefBuilder, CoverageTa
 use write_fonts::tables::layout::{Device, LookupFlag, LookupList};
 use write_fonts::tables::variations::ivs_builder::VariationStoreBuilder;
 
-fn cov_json(c: &RCoverage) -> Value {
+pub fn cov_json(c: &RCoverage) -> Value {
     match c {
         RCoverage::Format1(t) => json!({"fmt": 1, "glyphs": t.glyph_array().iter().map(|g| g.get().to_u16()).collect::<Vec<_>>(), "ranges": []}),
         RCoverage::Format2(t) => json!({"fmt": 2, "glyphs": [], "ranges": t.range_records().iter().map(|r| vec![r.start_glyph_id().to_u16() as u32, r.end_glyph_id().to_u16() as u32, r.start_coverage_index() as u32]).collect::<Vec<_>>()}),
